@@ -135,8 +135,29 @@ func runC14(p *Prog, r *Report) {
 					"every path from the growth passes the clamp test", "some path from the growth of reconnTime skips the clamp test")
 			}
 			// failure path when !redial returns the error
-			rets := dl.Ev("return", "").Guarded("!φredial")
-			q.Req(R, "sync-failure-returned", len(rets) == 1 && rets[0].Args[0] == "recv.d.Dial()#1", rets.Pos(p), "non-redial failure returns the transport error", "a synchronous dial failure is not returned to the caller")
+			// `if !redial || d.closed { return err }`: the return block is entered by the
+			// edges !redial and closed only
+			var rets Sel
+			for _, e := range dl.Ev("return", "") {
+				if len(e.Args) != 1 || e.Args[0] != "recv.d.Dial()#1" {
+					continue
+				}
+				ea := edgeAtomsOf(e.In.Block())
+				hasNR, only := hasAtom(e.Guard, "!φredial"), true
+				for _, a := range ea {
+					if a == "!φredial" {
+						hasNR = true
+					} else if a != "recv.closed" {
+						only = false
+					}
+				}
+				if hasNR && only {
+					rets = append(rets, e)
+				}
+			}
+			q.Req(R, "sync-failure-returned", len(rets) == 1, rets.Pos(p), "a failure that is not to be retried (synchronous Dial, or the dialer was closed meanwhile) returns the transport error", "a synchronous dial failure is not returned to the caller")
+			// nothing is scheduled once the dialer has been closed
+			q.Req(R, "no-timer-once-closed", len(af) == 1 && af.AllGuarded("!recv.closed") && closedReadInSameSection(p, dl.fn, af[0].In), af.Pos(p), "the redial timer is armed only under !closed, tested in the critical section that arms it", "the redial timer can be armed on a dialer that was closed while the connection attempt was in flight (closed is not re-tested in the critical section that arms the timer)")
 		}
 	}
 
@@ -160,8 +181,10 @@ func runC14(p *Prog, r *Report) {
 	pcl := q.Fn(R, "internal/core", "dialer", "pipeClosed")
 	if pcl.OK() {
 		af := pcl.Ev("call", "time.AfterFunc")
-		q.Req(R, "pipeClosed-schedules", len(af) == 1 && len(af[0].Guard) == 0 && af[0].Args[0] == "recv.reconnTime" && strings.Contains(af[0].Args[1], "redial") && af.AllHeld(coreDialerMu), af.Pos(p),
-			"AfterFunc(reconnTime, redial) unconditionally, under the lock", "pipeClosed does not unconditionally schedule redial after reconnTime")
+		q.Req(R, "pipeClosed-schedules", len(af) == 1 && len(af[0].Guard) == 1 && af[0].Guard[0] == "!recv.closed" && af[0].Args[0] == "recv.reconnTime" && strings.Contains(af[0].Args[1], "redial") && af.AllHeld(coreDialerMu), af.Pos(p),
+			"AfterFunc(reconnTime, redial) whenever the dialer is not closed, under the lock", "pipeClosed does not schedule a redial after reconnTime exactly when the dialer is still open: "+guardsOf(af))
+		st := pcl.Ev("store", "recv.redialer")
+		q.Req(R, "pipeClosed-timer-tracked", len(st) == 1 && strings.HasPrefix(st[0].Args[0], "time.AfterFunc("), st.Pos(p), "the timer is kept in redialer so that Close can stop it", "the redial timer armed by pipeClosed is not kept where Close can stop it")
 	}
 	dialerToldOfEveryClose(p, r, R)
 	rd := q.Fn(R, "internal/core", "dialer", "redial")
@@ -212,4 +235,36 @@ func dialerToldOfEveryClose(p *Prog, r *Report, R string) {
 		c := cp.Ev("call", "core.(*pipe).Close")
 		q.Req(R, "close-calls-Close", len(c) == 1 && len(c[0].Guard) == 0, c.Pos(p), "close() calls Close()", "(*pipe).close no longer calls Close")
 	}
+}
+
+// edgeAtomsOf: for a block entered only from conditional branches, the atom of each edge.
+func edgeAtomsOf(b *ssa.BasicBlock) []string {
+	var out []string
+	for _, pb := range b.Preds {
+		iff, ok := pb.Instrs[len(pb.Instrs)-1].(*ssa.If)
+		if !ok {
+			return nil
+		}
+		out = append(out, NormAtom(iff.Cond, pb.Succs[0] == b))
+	}
+	return out
+}
+
+// closedReadInSameSection: some If on recv.closed is evaluated under the same lock
+// acquisition as instruction at.
+func closedReadInSameSection(p *Prog, fn *ssa.Function, at ssa.Instruction) bool {
+	for _, b := range fn.Blocks {
+		iff, ok := b.Instrs[len(b.Instrs)-1].(*ssa.If)
+		if !ok || Desc(iff.Cond) != "recv.closed" {
+			continue
+		}
+		for _, h1 := range p.E1().held[iff] {
+			for _, h2 := range p.E1().held[at] {
+				if h1.At == h2.At {
+					return true
+				}
+			}
+		}
+	}
+	return false
 }
